@@ -31,6 +31,9 @@ def check_trace(ctx, module, cfg_impl, cfg_prop, events, on_reject, drop="event"
         return 0
     impl_first = n
     ev = list(events)
+    if drop == "block" and n < len(ev):
+        # the prefix accepted with the Impl layer on is accepted by the Prop layer too
+        ev = ev[_block_bounds(ev, n)[0]:]
     rejected = 0
     for _ in range(max_rounds):
         ok, n, r = tlc.validate_trace(module, cfg_prop or cfg_impl, ev, env=env, timeout=timeout, xmx=xmx)
@@ -41,9 +44,11 @@ def check_trace(ctx, module, cfg_impl, cfg_prop, events, on_reject, drop="event"
         lo, hi = _block_bounds(ev, n) if drop == "block" else (n, n + 1)
         same = on_reject(ev[n], n, ev[lo:hi])
         rejected += 1
-        if drop == "block" and ev[lo].get("e") != "Reset":
-            lo = n
-        del ev[lo:hi]
+        if drop == "block":
+            # everything before this block was accepted and blocks are independent (each starts from Reset): continue after it
+            ev = ev[hi:]
+        else:
+            del ev[lo:hi]
         if callable(same) and drop == "event":
             # the same signature would be reported again for every similar event: drop them, keep checking the rest
             ev = [e for e in ev if not same(e)]
